@@ -58,6 +58,9 @@ func replaceLemma(idx int, p string) {
 		verifrt.Assert("C09/replace/moves-no-funds", verifrt.All(len(h.Env.Bank.Calls) == 0, len(h.Env.FTF.Burns) == 0, len(h.Env.FTF.Mints) == 0))
 		verifrt.Assert("C09/replace/writes-nothing", verifrt.Implies(ok, len(ws) == 0))
 	}
+	if p == "C01" {
+		verifrt.Assert("C01/replace/accept-implies-valid-attestation", verifrt.Implies(ok, attOK))
+	}
 	if p == "C12" {
 		verifrt.Assert("C12/replace/send-pause-blocks", verifrt.Implies(h.SendPaused, !ok))
 		if isDeposit {
